@@ -481,6 +481,13 @@ def _last_dot_confined(ctx, f, g, rd, q, msg):
             return colon_derived(node, e.body, depth + 1) or colon_derived(node, e.orelse, depth + 1)
         return False
     n_ops = 0
+    # a search whose needle is not written out (a loop over the terminators) cannot be told from the colon search: not judged
+    for n in g.nodes:
+        if n.dup or n.kind not in ('stmt', 'test'):
+            continue
+        for c in node_calls(n):
+            if isinstance(c.func, ast.Attribute) and c.func.attr in ('find', 'index', 'partition', 'split') and is_name(c.func.value, msg) and c.args and not isinstance(c.args[0], ast.Constant):
+                need(False, 'C03.R6: the message is searched for `%s`, which is not a literal: the cuts at the first newline / first colon are not visible structurally' % ctx.src(c.args[0]))
     for n in g.nodes:
         if n.dup or n.kind not in ('stmt', 'test'):
             continue
